@@ -29,6 +29,20 @@ add("C02", "model_checking",
     "energy x the applicable intensity, that footprints are non-negative and that no divisor can be zero.",
     "Time zones/windows concrete per instance; plotting functions outside.")
 
+add("C10", "model_checking",
+    "Differential symbolic execution of two whole models: every quantity input a_i [U_i] is re-expressed as "
+    "a_i*f [U'_i] with the exact rational factor f (one parameter at a time, and grouped per class); z3 decides on "
+    "every path that every calculated attribute of every object is physically equal, and that both models are "
+    "accepted or rejected alike.",
+    "Unit menu in evidence.bounds.units; custom units cpu_core/gpu have no alternative spelling; accept/reject "
+    "flips that exist only exactly on a branch boundary (float rounding) are outside the claim.")
+add("C12", "model_checking",
+    "Differential symbolic execution with a symbolic factor k>0: for each driver row of the statement and each "
+    "object, the model with driver*k is built next to the original in one path exploration; z3 decides f' = k f "
+    "(or f'k = f for inverse drivers, the affine form for partially driven aggregates) for the driven footprints "
+    "and f' = f for every other footprint of every object; traffic scaling likewise.",
+    "Driven sets are derived from the statement and the skeleton spec (harness/c12.py:_expect).")
+
 NA_REASONS = {}
 
 
